@@ -5,4 +5,6 @@ declare -A BY=( [C01-newlunar-peeks-cached-table]=C09 [C07-newlunar-searches-cac
 # optional argument k/n: run only every n-th seed starting with the k-th (parallel streams)
 K=${1:-0/1}; k=${K%/*}; n=${K#*/}; i=0
 cd /verif
-for d in seeded/*/; do i=$((i+1)); [ $(( (i-1) % n )) -eq $k ] || continue; id=$(basename $d); p=${BY[$id]:-}; nice -n 5 ./seedrun.sh $id $p 2>&1 | grep "^SEEDRUN"; done
+# optional second argument: property prefixes in the order to run them, e.g. "C14 C11 C09" (default: all, alphabetical)
+LIST=""; if [ -n "${2:-}" ]; then for pfx in $2; do LIST="$LIST $(ls -d seeded/$pfx-*/)"; done; else LIST=$(ls -d seeded/*/); fi
+for d in $LIST; do i=$((i+1)); [ $(( (i-1) % n )) -eq $k ] || continue; id=$(basename $d); p=${BY[$id]:-}; nice -n 5 ./seedrun.sh $id $p 2>&1 | grep "^SEEDRUN"; done
